@@ -43,6 +43,32 @@ def _private_functions(p: Program) -> Dict[str, Set[str]]:
     return out
 
 
+def _private_variables(p: Program) -> Dict[str, Set[str]]:
+    """module -> private module-level names bound by assignment to something that is not a plain literal (a computed table, an object): what
+    is left of them after the constant / table passes is data the rules have not evaluated."""
+    cache = getattr(p, "_opaque_privvars", None)
+    if cache is not None:
+        return cache
+    out: Dict[str, Set[str]] = {}
+    for name, m in p.modules.items():
+        if m.is_test:
+            continue
+        s: Set[str] = set()
+        for st in m.tree.body:
+            tgt = val = None
+            if isinstance(st, ast.Assign) and len(st.targets) == 1 and isinstance(st.targets[0], ast.Name):
+                tgt, val = st.targets[0].id, st.value
+            elif isinstance(st, ast.AnnAssign) and isinstance(st.target, ast.Name) and st.value is not None:
+                tgt, val = st.target.id, st.value
+            if isinstance(val, ast.Call) and isinstance(val.func, ast.Name) and val.func.id in ("TypeVar", "NewType"):
+                continue
+            if tgt and tgt.startswith("_") and not tgt.startswith("__") and any(isinstance(x, (ast.Call, ast.GeneratorExp, ast.ListComp, ast.DictComp, ast.SetComp, ast.BinOp, ast.Lambda)) for x in ast.walk(val)):
+                s.add(tgt)
+        out[name] = s
+    p._opaque_privvars = out
+    return out
+
+
 def _imported_private(p: Program, modname: str) -> Dict[str, str]:
     """local name -> "module:name" for private helpers imported into *modname* from other modules of the package."""
     m = p.modules[modname]
@@ -96,7 +122,10 @@ def residuals(p: Program, fi: FunctionInfo) -> List[str]:
     for n in ast.walk(fi.node):
         for c in ast.iter_child_nodes(n):
             parents[id(c)] = n
+    priv_vars = _private_variables(p).get(fi.module.name, set())
     for n in ast.walk(fi.node):
+        if isinstance(n, ast.Name) and isinstance(n.ctx, ast.Load) and n.id in priv_vars and n.id not in shadow:
+            out.append(f"private module-level table {n.id} (computed, not resolved)")
         if isinstance(n, (ast.FunctionDef, ast.AsyncFunctionDef)) and n is not fi.node and n.name not in anch and n.name in baseline_new_nested(p, fi):
             out.append(f"nested function {n.name} (not inlined)")
         if isinstance(n, ast.Name) and isinstance(n.ctx, ast.Load) and n.id not in shadow:
